@@ -15,6 +15,7 @@ import (
 	"os/exec"
 	"os/signal"
 	"path/filepath"
+	"reflect"
 	"runtime"
 	"sort"
 	"strconv"
@@ -674,6 +675,94 @@ func ddmin(list []interface{}, test func([]interface{}) bool, allowEmpty bool) [
 	return list
 }
 
+// simplifyOperands tries, call by call, to replace operands by simpler ones
+// (annotations dropped, padding removed, literal bytes zeroed, integers to 0/1,
+// slots to lower-numbered slots), keeping a replacement only if the same
+// violation persists.
+func simplifyOperands(calls []interface{}, test func([]interface{}) bool) []interface{} {
+	clone := func(m map[string]interface{}) map[string]interface{} {
+		c := map[string]interface{}{}
+		for k, v := range m {
+			if l, ok := v.([]interface{}); ok {
+				c[k] = append([]interface{}{}, l...)
+			} else {
+				c[k] = v
+			}
+		}
+		return c
+	}
+	try := func(i int, mod func(m map[string]interface{}) bool) {
+		orig, ok := calls[i].(map[string]interface{})
+		if !ok {
+			return
+		}
+		c := clone(orig)
+		if !mod(c) {
+			return
+		}
+		cand := append([]interface{}{}, calls...)
+		cand[i] = c
+		if test(cand) {
+			calls = cand
+		}
+	}
+	for i := range calls {
+		try(i, func(m map[string]interface{}) bool {
+			ch := false
+			for _, k := range []string{"fault", "bpad", "boff"} {
+				if _, ok := m[k]; ok {
+					delete(m, k)
+					ch = true
+				}
+			}
+			return ch
+		})
+		try(i, func(m map[string]interface{}) bool {
+			b, ok := m["b"].(string)
+			if !ok || len(b) == 0 || strings.Trim(b, "0") == "" {
+				return false
+			}
+			m["b"] = strings.Repeat("0", len(b))
+			return true
+		})
+		for _, k := range []string{"u", "c"} {
+			k := k
+			try(i, func(m map[string]interface{}) bool {
+				if v, ok := m[k].(float64); ok && v > 1 {
+					m[k] = float64(1)
+					return true
+				}
+				return false
+			})
+		}
+		for _, k := range []string{"p", "s", "e"} {
+			k := k
+			orig, _ := calls[i].(map[string]interface{})
+			l, _ := orig[k].([]interface{})
+			for j := range l {
+				j := j
+				cur, _ := l[j].(float64)
+				for lower := 0; lower < int(cur); lower++ {
+					lower := lower
+					before := calls[i]
+					try(i, func(m map[string]interface{}) bool {
+						ll, _ := m[k].([]interface{})
+						if j >= len(ll) {
+							return false
+						}
+						ll[j] = float64(lower)
+						return true
+					})
+					if !reflect.DeepEqual(before, calls[i]) {
+						break
+					}
+				}
+			}
+		}
+	}
+	return calls
+}
+
 // minimise shrinks a failing trace, every candidate in a fresh process: first
 // the prelude (runs executed earlier in the same process; dropped entirely if
 // the violation reproduces from a cold process), then the call list.
@@ -711,6 +800,7 @@ func minimise(bin string, tr map[string]interface{}, want *violation) map[string
 		prelude = ddmin(prelude, func(p []interface{}) bool { return run(p, calls) }, true)
 	}
 	calls = ddmin(calls, func(cs []interface{}) bool { return run(prelude, cs) }, false)
+	calls = simplifyOperands(calls, func(cs []interface{}) bool { return run(prelude, cs) })
 	out := map[string]interface{}{}
 	for k, v := range tr {
 		out[k] = v
